@@ -39,9 +39,16 @@ pub fn run(ctx: &mut RunCtx) -> Result<(), Violation> {
     } else {
         crate::program::set_const_pool(Vec::new());
     }
+    // descriptions with many distinct scalars per row (up to 11 per constraint are legal)
+    let dense = w.chance(1, 4);
+    crate::program::set_dense_selectors(dense);
+    if dense {
+        ctx.st.probe("programs_with_dense_random_selectors");
+    }
     let class = if ctx.thorough { pick_class(&mut w, [8, 5, 3, 1]) } else { pick_class(&mut w, [10, 4, 1, 0]) };
     let sc = gen_scenario(ctx, &mut w, &ScenCfg { class, heavy: false, raw: true, exact_target: true, max_ops: 32 });
     crate::program::set_const_pool(Vec::new());
+    crate::program::set_dense_selectors(false);
     let sig = scenario_sig(&sc);
     let min_deg = deploy::min_degree_for(sc.constraints);
 
